@@ -299,10 +299,10 @@ PROPS = {
     },
     "C04": {
         "level": "proof",
-        "claim": "Capsule path and close-code conversion: a DATA payload is a CLOSE_WEBTRANSPORT_SESSION capsule iff type 0x2843 with a complete length and value (any length, Verus unit capsule; every payload <= 16, Kani); the close is accepted IFF 4 <= len <= 1028 and the reason is UTF-8, carries exactly the big-endian 32-bit code (all 2^32) and the reason bytes; every malformed capsule is H3_DATAGRAM_ERROR; a QUIC application close reaches the application with the same 62-bit code and reason, other causes never become an application close; the leaf future's ImmediateFin/UnexpectedFin distinction (clean finish vs abrupt end) is exact under every Pending pattern. Driver (Verus unit driver_streams, every sequence of read results on the session stream): ConnectStream::run skips non-DATA frames and unknown capsules, turns a CLOSE_WEBTRANSPORT_SESSION capsule into ApplicationClosed with exactly the peer's code and reason bytes (and resets the stream with H3_NO_ERROR), a clean FIN into ApplicationClosed(0, empty), and an abrupt end, reset or malformed capsule into a protocol error - never an application close.",
+        "claim": "Capsule path and close-code conversion: a DATA payload is a CLOSE_WEBTRANSPORT_SESSION capsule iff type 0x2843 with a complete length and value (any length, Verus unit capsule; every payload <= 16, Kani); the close is accepted IFF 4 <= len <= 1028 and the reason is UTF-8, carries exactly the big-endian 32-bit code (all 2^32) and the reason bytes; every malformed capsule is H3_DATAGRAM_ERROR; a QUIC application close reaches the application with the same 62-bit code and reason, other causes never become an application close; the leaf future's ImmediateFin/UnexpectedFin distinction (clean finish vs abrupt end) is exact under every Pending pattern. Driver (Verus unit driver_streams, every sequence of read results on the session stream): ConnectStream::run skips non-DATA frames and unknown capsules, turns a CLOSE_WEBTRANSPORT_SESSION capsule into ApplicationClosed with exactly the peer's code and reason bytes (and resets the stream with H3_NO_ERROR), a clean FIN into ApplicationClosed(0, empty), and an abrupt end, reset or malformed capsule into a protocol error - never an application close. The chain to the application is closed by units driver (Worker::run: the ending error becomes the driver result, and the CONNECTION_CLOSE code on the wire is H3_NO_ERROR after a peer close / the registry code of a protocol error; Driver::accept_* / receive_datagram fail only with that driver result) and connection (Connection::accept_uni / accept_bi / open_* / receive_datagram turn DriverError::ApplicationClosed(a) into ConnectionError::ApplicationClosed(a) with the same code and reason, a protocol error into that LocalH3Error, and only 'not connected' into the QUIC-level cause).",
         "note": "Not decided: ConnectStream::run (clean FIN => (0, ''), reset => protocol failure), Worker::run, From<quinn::ConnectionError> (async / need a quinn::Connection). UTF-8 validation trusted (core::str::from_utf8) beyond 4-byte reasons.",
         "kani": CAPSULE_KANI + DRIVER_CLOSE + [ASYNC_LEAF_KANI[1]],
-        "verus": [V("capsule", pair=("proto", "p_capsule_with_frame")), V("driver_streams")],
+        "verus": [V("capsule", pair=("proto", "p_capsule_with_frame")), V("driver_streams"), V("connection")],
         "not_decided": ["ConnectStream::run", "ApplicationClose from quinn::ConnectionError"],
     },
     "C06": {
@@ -333,7 +333,7 @@ PROPS = {
     },
     "C12": {
         "level": "proof",
-        "claim": "Sans-IO typestate layer: on each of the four stream roles, from an arbitrary first-frame state, the accept/reject verdict and the error code for every frame kind equal the RFC 9114 7.2 / WebTransport-draft rule table - for inputs of ANY length with any number of skipped unknown frames, sync and async (Verus units frame, frame_async) and on bounded symbolic inputs on the real crate (Kani); invalid session ids -> H3_ID_ERROR, oversize -> H3_EXCESSIVE_LOAD, truncation at FIN -> H3_FRAME_ERROR, clean FIN at a frame boundary passed through, unknown uni stream type -> H3_STREAM_CREATION_ERROR; SETTINGS: reserved/duplicate -> H3_SETTINGS_ERROR, truncated -> H3_FRAME_ERROR; the 15 error codes and the setting ids equal their registry values. Driver (Verus units driver, driver_streams): a second control / QPACK encoder / QPACK decoder stream is H3_STREAM_CREATION_ERROR and GREASE stream types are ignored (handle_uni_h3_stream); DATA or SETTINGS as first frame of a request stream is H3_FRAME_UNEXPECTED (handle_bi_h3_stream); on the peer's control stream the first frame must be SETTINGS (H3_MISSING_SETTINGS), afterwards only reserved types are tolerated (H3_FRAME_UNEXPECTED, incl. a second SETTINGS), and every kind of end of a critical stream (peer control, local control, QPACK streams) is H3_CLOSED_CRITICAL_STREAM - for every sequence of frames / I/O outcomes.",
+        "claim": "Sans-IO typestate layer: on each of the four stream roles, from an arbitrary first-frame state, the accept/reject verdict and the error code for every frame kind equal the RFC 9114 7.2 / WebTransport-draft rule table - for inputs of ANY length with any number of skipped unknown frames, sync and async (Verus units frame, frame_async) and on bounded symbolic inputs on the real crate (Kani); invalid session ids -> H3_ID_ERROR, oversize -> H3_EXCESSIVE_LOAD, truncation at FIN -> H3_FRAME_ERROR, clean FIN at a frame boundary passed through, unknown uni stream type -> H3_STREAM_CREATION_ERROR; SETTINGS: reserved/duplicate -> H3_SETTINGS_ERROR, truncated -> H3_FRAME_ERROR; the 15 error codes and the setting ids equal their registry values. Driver (Verus units driver, driver_streams): a second control / QPACK encoder / QPACK decoder stream is H3_STREAM_CREATION_ERROR and GREASE stream types are ignored (handle_uni_h3_stream); DATA or SETTINGS as first frame of a request stream is H3_FRAME_UNEXPECTED (handle_bi_h3_stream); on the peer's control stream the first frame must be SETTINGS (H3_MISSING_SETTINGS), afterwards only reserved types are tolerated (H3_FRAME_UNEXPECTED, incl. a second SETTINGS), and every kind of end of a critical stream (peer control, local control, QPACK streams) is H3_CLOSED_CRITICAL_STREAM - for every sequence of frames / I/O outcomes. Whatever protocol error ends the driver, Worker::run closes the QUIC connection with exactly that error's registry code (unit driver).",
         "note": "Quick tier: well-formed single frames (bounded). Thorough tier: every byte string <= 14 bytes. Not decided: the driver's reaction (RemoteSettingsStream::run, handle_uni_h3_stream, missing/duplicate SETTINGS, closed critical streams) - async over quinn.",
         "kani": STREAM_KANI_QUICK[:5] + STREAM_KANI_BUFFERED + STREAM_KANI_THOROUGH + MISC_KANI[:1] + SETTING_ID_KANI[1:3] + ASYNC_LEAF_KANI[:3],
         "verus": [V("frame", pair=("proto", "p_frame_read_matches_reference_20")), V("settings", pair=("proto", "c_settingid_parse")), V("frame_async"), V("stream_header", pair=("proto", "p_uniremote_upgrade")), V("driver"), V("driver_streams")],
@@ -376,11 +376,11 @@ PROPS = {
     },
     "C17": {
         "level": "proof",
-        "claim": "Proof, for all 2^62 ids, of the identifier algebra: every function of ids.rs (classification, session-id admission, quarter-stream-id conversions, range, unsafe preconditions, debug_asserts) satisfies its contract against the RFC 9000 2.1 reference, on two back ends independently (Kani in place, Verus on extracted text); quinn stream ids convert unchanged. Driver (Verus unit driver, ANY sequence of queued streams / datagrams): Driver::accept_uni / accept_bi return only streams naming the requested session; a stream naming another session is stopped with WEBTRANSPORT_BUFFERED_STREAM_REJECTED (the only code the assumed stop accepts) and the loop goes on - the call fails only with the driver's own result; receive_datagram drops foreign datagrams.",
+        "claim": "Proof, for all 2^62 ids, of the identifier algebra: every function of ids.rs (classification, session-id admission, quarter-stream-id conversions, range, unsafe preconditions, debug_asserts) satisfies its contract against the RFC 9000 2.1 reference, on two back ends independently (Kani in place, Verus on extracted text); quinn stream ids convert unchanged. Driver (Verus unit driver, ANY sequence of queued streams / datagrams): Driver::accept_uni / accept_bi return only streams naming the requested session; a stream naming another session is stopped with WEBTRANSPORT_BUFFERED_STREAM_REJECTED (the only code the assumed stop accepts) and the loop goes on - the call fails only with the driver's own result; receive_datagram drops foreign datagrams. Connection (unit connection) always asks the driver for ITS OWN session id (accept_uni / accept_bi / open_uni / open_bi / receive_datagram / send_datagram).",
         "note": "Only the algebra is decided. Not decided: that the driver refuses foreign-session streams with BufferedStreamRejected and drops foreign datagrams (async over quinn).",
         "explanation": "Identifier algebra only: every function of ids.rs under contract on both back ends, for all 2^62 ids.",
         "kani": IDS_KANI + [DRIVER_STREAMID, DATAGRAM_KANI[4], MISC_KANI[0]],
-        "verus": [V("ids", pair=("proto", "p_qstream_session_inverse_real")), V("driver")],
+        "verus": [V("ids", pair=("proto", "p_qstream_session_inverse_real")), V("driver"), V("connection")],
         "not_decided": ["Driver::accept_uni/accept_bi/receive_datagram filtering of foreign sessions and the BufferedStreamRejected stop code (async over quinn)"],
     },
     "C18": {
